@@ -203,6 +203,25 @@ fn check_time(rep: &mut Report, t: &str) {
     }
 }
 
+/// the JSON side reads the same strings as times as the MT side does (13C / 13D carry the time as an HHMM string in JSON)
+fn check_time_json(rep: &mut Report, t: &str) {
+    let ok = t.len() == 4 && t.bytes().all(|b| b.is_ascii_digit()) && t[0..2].parse::<u32>().unwrap() <= 23 && t[2..4].parse::<u32>().unwrap() <= 59;
+    for (name, j) in [("13D", json!({"date": "240315", "time": t, "offset_sign": "+", "offset": "0100"})), ("13C", json!({"code": "SNDTIME", "time": t, "sign": "+", "offset": "0100"}))] {
+        let jj = j.clone();
+        let r = std::panic::catch_unwind(move || if name == "13D" { serde_json::from_value::<Field13D>(jj).map(|f| f.to_swift_string()) } else { serde_json::from_value::<swift_mt_message::fields::Field13C>(jj).map(|f| f.to_swift_string()) });
+        rep.case(&format!("{name} json time {t}"), true);
+        let w = |why: &str, extra: serde_json::Value| json!({"field": name, "json": j, "time": t, "why": why, "detail": extra});
+        match r {
+            Err(_) => rep.fail(&format!("panic|Field{name}|json-time"), w("panic", json!(null))),
+            Ok(Ok(ser)) => {
+                if !ok { rep.fail(&format!("json_accepts_invalid|Field{name}|time"), w("JSON accepts as a time a string the MT side refuses", json!(ser))); }
+                else if !ser.contains(t) { rep.fail(&format!("digits_changed|Field{name}|json-time"), w("the time read from JSON is written with other digits", json!(ser))); }
+            }
+            Ok(Err(_)) => if ok { rep.fail(&format!("json_rejects_valid|Field{name}|time"), w("JSON refuses a clock time the MT side accepts", json!(null))); },
+        }
+    }
+}
+
 fn check_offset(rep: &mut Report, sign: char, o: &str) {
     let digits = o.len() == 4 && o.bytes().all(|b| b.is_ascii_digit());
     let ok = (sign == '+' || sign == '-') && digits && o[0..2].parse::<u32>().unwrap() <= 14 && o[2..4].parse::<u32>().unwrap() <= 59;
@@ -250,6 +269,7 @@ pub fn run(o: &Opts) -> Report {
         }
         for n in 0..10_000u32 {
             check_time(&mut rep, &format!("{n:04}"));
+            check_time_json(&mut rep, &format!("{n:04}"));
             check_offset(&mut rep, '+', &format!("{n:04}"));
             check_offset(&mut rep, '-', &format!("{n:04}"));
         }
@@ -268,7 +288,9 @@ pub fn run(o: &Opts) -> Report {
         }
         for n in (0..10_000u32).step_by(7) {
             check_time(&mut rep, &format!("{n:04}"));
+            check_time_json(&mut rep, &format!("{n:04}"));
         }
+        for t in ["2400", "2359", "0000", "2360", "2500", "9999", "240", "24000"] { check_time_json(&mut rep, t); }
         for hh in 0..100u32 {
             for mm in [0u32, 1, 30, 59, 60, 99] {
                 check_time(&mut rep, &format!("{hh:02}{mm:02}"));
@@ -278,7 +300,9 @@ pub fn run(o: &Opts) -> Report {
         }
     }
     // non-digit spellings (both tiers)
-    let odd = ["+1+1+1", "-10101", " 10101", "2401 1", "24O101", "24-1-1", "240101 ", "24010", "2401011", "", "١٢٣٤٥٦", "24\u{e9}101", "2\u{e9}0101", "ab0101", "24.1.1", "1e0101", "+20101", "0x0101"];
+    let odd = ["+1+1+1", "-10101", " 10101", "2401 1", "24O101", "24-1-1", "240101 ", "24010", "2401011", "", "١٢٣٤٥٦", "24\u{e9}101", "2\u{e9}0101", "ab0101", "24.1.1", "1e0101", "+20101", "0x0101",
+        // eight digits (a four-digit year) are not `6!n`, whatever date they spell
+        "20240719", "19490101", "20491231", "20000229", "24071900", "00240719", "2024071", "202407190"];
     for d in odd {
         check_date(&mut rep, d, DATE_FIELDS);
     }
